@@ -101,7 +101,7 @@ class Ctx:
 
     def tlc_mc(self, module, cfg=None, timeout=600, workers=None, expect_violation=False, coverage=False, xss=None):
         """Exhaustive model check  Sys => Prop  (INVARIANT mon.viol = {} and friends)."""
-        if self.replay:
+        if self.replay or os.environ.get("VERIF_SKIP_MC"):   # VERIF_SKIP_MC: detection self-tests only (bin/selftest); the model does not depend on /repo
             return {}
         cfg = cfg or module + ".cfg"
         d = self._specdir("mc")
